@@ -915,6 +915,7 @@ func run(seed int64, n int, dir string, _ []string) {
 		det(2, fsJobs(g))
 		det(4, clauseComboJobs())
 		det(5, outputCellJobs())
+		jobs = append(jobs, modeAndLikeJobs()...)
 		det(6, accessPathJobs(g, 0, true))
 		det(6, sizeJobs(g, 0, true))
 		jobs = append(jobs, accessPathJobs(g, budget*3/100, false)...)
